@@ -46,6 +46,30 @@ def build(ctx, tier, seed):
             cases.append({'cmd': 'CF %s %s %x' % (kind, hb, n), 'spec': None, 'key': {'builder': kind, 'len': n, 'what': 'finalize'},
                           'kind': 'finalize', 'n': n, 'fmt': kind})
             cnt('finalize:%s' % kind)
+    # prior header states RELATED to the result: length / pad / eff / fdf / identifier fields that already hold (or nearly
+    # hold) what is about to be written, over never-zero stale payload and pad bytes (a "nothing to do" shortcut must still
+    # copy the payload and clear the pad)
+    from props import exlib
+    enc = exlib.Enc(ctx)
+    for kind, fmt in (('full', 'Can'), ('brief', 'CanBrief')):
+        hdr = HDR[kind]
+        for n in (list(range(0, 13)) + [63, 64]) if quick else range(0, 65):
+            total = hdr + n + pad_of(n)
+            for dq, dp in ((0, 0), (0, 1), (0, 3), (1, 0), (-1, 0)):
+                ident = rng.choice([0x123, 0x7ff, 0x800, 0x1abcdef0])
+                var = rng.choice([0, 1])
+                b = bytearray(x | 1 for x in rng.bytes(total + rng.choice([0, 5])))
+                enc.put(b, 0, fmt, 'ACF_MSG_LENGTH', (total // 4 + dq) % 512)
+                enc.put(b, 0, fmt, 'PAD', (pad_of(n) + dp) % 4)
+                enc.put(b, 0, fmt, 'EFF', 1 if ident > 0x7ff else 0)
+                enc.put(b, 0, fmt, 'FDF', var)
+                enc.put(b, 0, fmt, 'CAN_IDENTIFIER', ident)
+                hb, pl = F.hexbuf(bytes(b)), rng.bytes(n)
+                cases.append({'cmd': 'CC %s %s %x %s %x %x' % (kind, hb, ident, F.hexbuf(pl), n, var), 'spec': 'SCC %s %s %x %s %x' % (kind, hb, ident, F.hexbuf(pl), var),
+                              'key': {'builder': kind, 'len': n, 'what': 'create', 'prior': 'related'}, 'kind': 'create', 'n': n, 'fmt': kind})
+                cases.append({'cmd': 'CF %s %s %x' % (kind, hb, n), 'spec': None, 'key': {'builder': kind, 'len': n, 'what': 'finalize', 'prior': 'related'},
+                              'kind': 'finalize', 'n': n, 'fmt': kind})
+                cnt('prior-header-related:%s' % kind)
     # exact-extent: a buffer one byte too short must be an out-of-bounds access in both model and implementation
     for kind in ('full', 'brief'):
         for n in (1, 5, 7, 64):
